@@ -11,7 +11,7 @@ ID = "C06"
 LEVEL = "exploration"
 RULE = ("every case is a complete solve(): adversarial spec families (infeasible, unbounded, degenerate LICQ, fixed variables, m=0, singular / "
         "indefinite Hessian, flat minimum) and core specs x configuration table over 7 axes (Newton 4, step solver 4, linear solver 3, controller 4, "
-        "penalty 6, active-set 4, reporting options 6: plain / report_rcond / collect_path / display every row / DEBUG log / DEBUG+display) - quick: "
+        "penalty 6, active-set 4, options 7: plain / report_rcond / collect_path / display every row / DEBUG log / DEBUG+display / single precision) - quick: "
         "all one-factor and two-factor combinations plus a VERIF_SEED slice of the full product, thorough: the full product - x scalings cycling "
         "through {none, custom, Nominal, GradJac, KKT}; plus a long-horizon slice for the vetoing filter policies; oracle: outcome is one of the "
         "five statuses with finite x,y,d or a deliberate message-carrying error; distinct = (spec, configuration, scaling)")
@@ -19,7 +19,7 @@ ASSUMPTIONS = ["horizon 60 iterations (long-horizon slice: 400 quick / 2000 thor
                "deliberate errors: initial point, inverse step size, line search, derivative check (recognised by message prefix / DerivError)"]
 CASE_ALARM_S = 300
 TIMEOUT_IS_VIOLATION = "a solve with an iteration limit did not return (neither status nor error)"
-OPTS = ["plain", "rcond", "path", "display", "debug", "debug_display"]
+OPTS = ["plain", "rcond", "path", "display", "debug", "debug_display", "single"]
 
 
 def axes():
@@ -100,6 +100,8 @@ def apply_opts(cfg):
         p["collect_path"] = True
     elif o == "display":
         c["display_interval"] = 0.0
+    elif o == "single":
+        p["precision"] = "Single"
     elif o == "debug":
         lvl = logging.DEBUG
     elif o == "debug_display":
